@@ -16,7 +16,7 @@ CFG_DUR_KINDS = ["Wait", "SingleQubitOperation", "TwoQubitOperation", "VirtualVa
 BASE_CFG = dict(
     steps=(3, 14), qubits=4, p_sub=0.0, max_depth=0, p_rel=0.0, rel_types=["FOLLOWED_BY", "JOINED_START", "JOINED_END"],
     reps=[1], p_reg_reps=0.0, p_reg_dur=0.15, p_cfg_kind=0.35, p_zero_dur=0.1, kinds=None, p_measure=0.08,
-    sub_steps=(1, 6), measure_reg_of=False, p_barrier_rel=0.5, fields=False,
+    sub_steps=(1, 6), measure_reg_of=False, p_barrier_rel=0.5, fields=False, p_declare_register=0.0,
 )
 
 CLASSES: Dict[str, Dict[str, Any]] = {
@@ -27,8 +27,11 @@ CLASSES: Dict[str, Dict[str, Any]] = {
     "nested": dict(p_sub=0.3, max_depth=3, reps=[1, 1, 2, 3, 4], p_reg_reps=0.2, steps=(2, 8), p_rel=0.15),
     "nested_implicit": dict(p_sub=0.3, max_depth=3, reps=[1, 1, 2, 3, 4], p_reg_reps=0.2, steps=(2, 8)),
     "nested_explicit": dict(p_sub=0.3, max_depth=2, reps=[1, 2, 3], steps=(2, 8), p_rel=0.4),
-    "measure": dict(p_sub=0.3, max_depth=3, reps=[1, 1, 2, 3], p_measure=0.5, steps=(2, 8), measure_reg_of=True, qubits=4),
-    "allkinds": dict(p_rel=0.3, p_sub=0.15, max_depth=1, reps=[1, 2], fields=True, uniform_kinds=True, steps=(4, 14)),
+    "measure": dict(p_sub=0.3, max_depth=3, reps=[1, 1, 2, 3], p_measure=0.5, steps=(2, 8), measure_reg_of=True, qubits=4, p_declare_register=0.25),
+    "wide": dict(qubits=10, steps=(12, 30), p_rel=0.2, p_sub=0.1, max_depth=1, reps=[1, 2], sub_steps=(2, 6)),
+    "long": dict(qubits=3, steps=(40, 110), p_rel=0.1),
+    "deepnest": dict(p_sub=0.45, max_depth=5, steps=(1, 4), sub_steps=(1, 3), reps=[1, 1, 2, 3], p_reg_reps=0.2, p_rel=0.15),
+    "allkinds": dict(p_rel=0.3, p_sub=0.15, max_depth=1, reps=[1, 2], fields=True, uniform_kinds=True, steps=(4, 14), p_declare_register=0.15),
 }
 
 
@@ -37,7 +40,8 @@ def make_settings(rng: random.Random, default_glob: bool = False) -> Dict[str, A
         glob = {}
     else:
         glob = {k: rng.choice(GLOB_GRID) for k in ("READOUT", "MICROWAVE", "FLUX", "RESET")}
-    reg = {k: rng.choice(DURS) for k in REG_KEYS}
+    # a key may be absent at first (the library then reads its default 0.0) and only be registered by a later set event
+    reg = {k: rng.choice(DURS) for k in REG_KEYS if rng.random() < 0.75}
     reps = {k: rng.choice([1, 2, 3]) for k in REP_KEYS}
     return {"glob": glob, "reg": reg, "reps": reps}
 
@@ -139,7 +143,11 @@ def gen_circuit(rng: random.Random, cfg: Dict[str, Any], depth: int = 0) -> Dict
         reps = {"reg": rng.choice(REP_KEYS)}
     else:
         reps = rng.choice(cfg["reps"])
-    return {"reps": reps, "steps": steps}
+    out = {"reps": reps, "steps": steps}
+    if cfg.get("p_declare_register") and rng.random() < cfg["p_declare_register"]:
+        # declared register sizes below, at and above the qubit indices actually used (the declaration is not enforced by the library)
+        out["nq"] = rng.choice([1, 2, 3, cfg["qubits"], cfg["qubits"] + 4])
+    return out
 
 
 def gen_program(rng: random.Random, cls: str, **over) -> Dict[str, Any]:
